@@ -1,5 +1,5 @@
 (* C18/Witness.v — non-vacuity of the hypotheses used in Properties.v and concrete evaluations. *)
-From Verif Require Import Common.Base Generated.MemLimiter18 C18.Model C18.Proofs.
+From Verif Require Import Common.Base Generated.MemLimiter18 C18.Model C18.Proofs C18.ProofsSys.
 From Coq Require Import String.
 Local Open Scope Z_scope.
 
@@ -92,12 +92,11 @@ Proof. vm_compute. reflexivity. Qed.
 Example ex_gate_mid : forall o, In o [GConsume 1 2 None; GExtMustRefuse; GConsume 2 3 (Some 7)] -> is_check o = false.
 Proof. intros o [<-|[<-|[<-|[]]]]; reflexivity. Qed.
 
-(* lifetimes: three users sharing the limiter (no_restart holds), and the restart witness *)
+(* lifetimes: three users sharing the limiter *)
 Example ex_three_users :
-  no_restart (repeat LStart 3 ++ repeat LShutdown 3) /\
   map (fun k => checking (fst (life_run life0 (firstn k (repeat LStart 3 ++ repeat LShutdown 3))))) [0; 1; 2; 3; 4; 5; 6]%nat
   = [false; true; true; true; true; true; false].
-Proof. split; [apply repeat_no_restart|vm_compute; reflexivity]. Qed.
+Proof. vm_compute. reflexivity. Qed.
 
 Example ex_interleaved_users :
   (* A starts, B starts, A stops, C starts, B stops, C stops: the checker runs throughout *)
@@ -108,6 +107,57 @@ Proof. vm_compute. reflexivity. Qed.
 Example ex_shutdown_not_started : snd (life_run life0 [LShutdown; LStart; LShutdown; LShutdown]) = [true; false; false; true].
 Proof. vm_compute. reflexivity. Qed.
 
+(* a restarted limiter checks again *)
 Example ex_restart :
-  let s := fst (life_run life0 [LStart; LShutdown; LStart]) in refcnt s = 1 /\ goroutine s = true /\ checking s = false.
+  let s := fst (life_run life0 [LStart; LShutdown; LStart]) in refcnt s = 1 /\ goroutine s = true /\ checking s = true.
 Proof. vm_compute. repeat split; reflexivity. Qed.
+
+(* The code BEFORE fix 90db205a4 (Start did not re-arm the ticker): the old step function, kept
+   only to record the witness of the repaired defect C18-RESTART. *)
+Definition life_step_before_fix (s : life) (o : lop) : life * bool :=
+  match o with
+  | LStart =>
+      let rc := refcnt s + 1 in
+      if rc =? 1 then (mkLife rc true (ticker_live s), false)
+      else (mkLife rc (goroutine s) (ticker_live s), false)
+  | LShutdown => life_step s LShutdown
+  end.
+
+Example ex_restart_before_fix :
+  let s := fst (life_step_before_fix (fst (life_step_before_fix (fst (life_step_before_fix life0 LStart)) LShutdown)) LStart) in
+  refcnt s = 1 /\ goroutine s = true /\ checking s = false.
+Proof. vm_compute. repeat split; reflexivity. Qed.
+
+(* the factory: configs 7, 7, 9 (not constructible), 9 (constructible now), 7 -> limiters 0, 0, -, 1, 0 *)
+Example ex_factory :
+  snd (factory_run [] [(7, true); (7, false); (9, false); (9, true); (7, true)]%nat)
+  = [Some 0; Some 0; None; Some 1; Some 0]%nat.
+Proof. vm_compute. reflexivity. Qed.
+
+(* the whole limiter: two users, usage crosses the soft limit (80 MiB) and comes back; after the
+   last Shutdown ticks are no longer delivered *)
+Definition sys_ops : list sop :=
+  [ STick (mkTick 1 1 90000000 0); SStart; SStart; STick (mkTick 2 2 90000000 0); SQuery; SShutdown;
+    STick (mkTick 3 3 10 0); SShutdown; STick (mkTick 4 4 90000000 0); SQuery ].
+
+Example ex_sys :
+  snd (sys_run lim_fixed (sys0 0) sys_ops) =
+  [ SNoTick; SLifeRes false; SLifeRes false; STicked true 0; SQueried true; SLifeRes false;
+    STicked false 0; SLifeRes false; SNoTick; SQueried false ].
+Proof. vm_compute. reflexivity. Qed.
+
+Example ex_sys_hyps :
+  0 < refcnt (s_life (fst (sys_run lim_fixed (sys0 0) (firstn 3 sys_ops)))) /\
+  refcnt (s_life (fst (sys_run lim_fixed (sys0 0) (firstn 8 sys_ops)))) = 0 /\
+  (forall o, In o [STick (mkTick 4 4 90000000 0); SQuery] -> passive o = true).
+Proof.
+  split; [vm_compute; reflexivity|]. split; [vm_compute; reflexivity|].
+  intros o [<-|[<-|[]]]; reflexivity.
+Qed.
+
+(* restart at system level: the usage is seen again and refused *)
+Example ex_sys_restart :
+  snd (sys_run restart_limiter (sys0 0)
+         [SStart; SShutdown; SStart; STick (mkTick 1000000000 1000000000 4000000000 4000000000); SQuery]) =
+  [SLifeRes false; SLifeRes false; SLifeRes false; STicked true 1; SQueried true].
+Proof. exact sys_restart_checks_l. Qed.
